@@ -54,6 +54,7 @@ def cases(tier, rng):
             yield Case(f"str.lt {hexs(a)} {hexs(b)}", tag="lt-pair")
             yield Case(f"str.eq {hexs(a)} {hexs(b)}", tag="eq-pair")
             yield Case(f"path.eq {hexs(a)} {hexs(b)}", tag="patheq-pair")
+    yield from cmpfn_cases()
     # irreflexivity / reflexivity: direct oracles
     for a in strings(3):
         yield Case(f"str.lt {hexs(a)} {hexs(a)}", expect="0", tag="lt-irrefl")
@@ -114,8 +115,41 @@ def cases(tier, rng):
     if thorough:
         yield Case("bits.pow2all", expect="0 0 32", tag="pow2-all-2^32", nomodel=True)
 
+CMP_PATHS = [b"a", b"B", b"b", b"A1", b"d/a", b"zz/A", b"./b", b"x/y/B", b"zz/a.txt", b"B.TXT", b"m.txt", b"zz/M.TXT", b"a_b", b"d/aab",
+             b"e/a_B", b"Zz", b"d/e/zz", b"./A1", b"k/", b"q/a[", b"a["]
+
+def cmpfn_cases():
+    """the relation the archives are sorted with, on PATHS (bare and directory-qualified mixed): it must order by the final
+    component only"""
+    for a in CMP_PATHS:
+        for b in CMP_PATHS:
+            yield Case(f"path.cmpfn {hexs(a)} {hexs(b)}", tag="cmpfn-pair")
+
+def cmpfn_oracle(cases, outs):
+    lt = {}; idx = {}
+    for c, o in zip(cases, outs):
+        if c.tag != "cmpfn-pair": continue
+        p = c.line.split(); lt[(p[1], p[2])] = o; idx[(p[1], p[2])] = c
+    names = sorted({a for a, _ in lt})
+    def fn(h): return bytes.fromhex(h).rsplit(b"/", 1)[-1].lower() if h != "-" else b""
+    for a in names:
+        if lt.get((a, a)) == "1": yield idx[(a, a)], "1", f"comes-before is not irreflexive on {a}"
+        for b in names:
+            if lt.get((a, b)) == "1" and lt.get((b, a)) == "1": yield idx[(a, b)], "1", f"comes-before holds both ways on {a},{b}"
+            inc = lt.get((a, b)) == "0" and lt.get((b, a)) == "0"
+            if not a.endswith("2f") and not b.endswith("2f") and inc != (fn(a) == fn(b)):
+                yield idx[(a, b)], lt.get((a, b)), f"incomparability of paths {a},{b} differs from equality of their file names ignoring case"
+    for a in names:
+        for b in names:
+            if lt.get((a, b)) != "1": continue
+            for c in names:
+                if lt.get((b, c)) == "1" and lt.get((a, c)) != "1":
+                    yield idx[(a, c)], lt.get((a, c)), f"comes-before not transitive on paths {a},{b},{c}"; return
+
 def relational_oracles(cases, outs):
     """transitivity / symmetry over the exhaustive pair tables, evaluated on the implementation's answers only"""
+    bad0 = list(cmpfn_oracle(cases, outs))[:3]
+    if bad0: return bad0
     lt = {}; eq = {}; pe = {}
     idx = {}
     for c, o in zip(cases, outs):
